@@ -117,6 +117,7 @@ NoTie == dec.a \in {"imu", "mag"} => ~dec.tie          \* only for tie-free cons
 (* constant sets *)
 TimesX == {500 * k : k \in 0..12}                          \* 0 .. 6 ms, step 0.5 ms (exhaustive; ties reachable)
 TimesB == {300 * k : k \in 0..60} \cup {-300, 30000}   \* engine B: gaps are multiples of 0.3 ms, no tie with DtMinsB or the default
+TimesQ == {500 * k : k \in 0..8}
 DtMinsX == {0, 2000, 5000}
 DtMinsB == {250, 2250, 5250}
 =============================================================================
